@@ -6,6 +6,7 @@ import (
 	"go/token"
 	"go/types"
 	"os"
+	"regexp"
 	"strings"
 	"sync"
 
@@ -30,6 +31,8 @@ type Engine struct {
 	Known        map[string]bool // known finding ids (open)
 	Debug        bool
 	Prop         string
+	Summaries    bool // pure-callee summaries (DESIGN §3.3)
+	IfConvert    bool // merge string-concatenation triangles into ite terms (off: observation intrinsics want concatenation trees)
 	harnessFn    map[*ssa.Function]bool
 	moduleInits  []*ssa.Function
 	srcLines     map[string][]string
@@ -59,7 +62,26 @@ type deferred struct {
 	call *ssa.CallCommon
 }
 
+// localCtx is the state of a pure-callee summary (DESIGN §3.3): the callee's
+// internal branches are decided locally and its result is returned as one
+// ite-combined term instead of forking the caller's path.
+type localCtx struct {
+	decisions []int8
+	pos       int
+	newWork   [][]int8
+	cellMark  int
+}
+
+type localAbort struct{ why string }
+
+type mergeInfo struct {
+	cond      *Term
+	thenBlock *ssa.BasicBlock
+	from      *ssa.BasicBlock
+}
+
 type frame struct {
+	merge  *mergeInfo
 	fn     *ssa.Function
 	locals map[ssa.Value]Value
 	env    []Value
@@ -143,6 +165,11 @@ type Exec struct {
 	pcScanned    int
 	pcKeys       map[string]bool
 	pcKeyed      int
+	forkSites    map[string]int
+	curSite      string
+	wantModel    bool
+	local        *localCtx
+	summaries    int
 }
 
 type findingRegion struct {
@@ -158,7 +185,7 @@ func (e *Engine) NewExec(solver *Portfolio, decisions []int8) *Exec {
 		contracts: map[string]bool{}, xmlTokens: map[string]*xmlToken{},
 		timeStrs: map[string]*timeStr{}, certs: map[string]*certInfo{},
 		strAttrs: map[string]map[string]bool{}, reqs: map[*Cell]*reqInfo{}, urlInfos: map[*Cell]*urlInfo{},
-		pcSyms: map[string]bool{}, pcKeys: map[string]bool{}, renders: map[string]*renderInfo{}, sigCtx: map[*Cell]*sigCtxInfo{}, privKeys: map[*Cell]*Term{},
+		forkSites: map[string]int{}, pcSyms: map[string]bool{}, pcKeys: map[string]bool{}, renders: map[string]*renderInfo{}, sigCtx: map[*Cell]*sigCtxInfo{}, privKeys: map[*Cell]*Term{},
 	}
 }
 
@@ -194,9 +221,13 @@ func (x *Exec) assume(c *Term) {
 	x.pc = append(x.pc, c)
 }
 
-func (x *Exec) check(extra ...*Term) (Result, Model) {
-	as := append(append([]*Term{}, x.pc...), extra...)
-	r, m, why := x.Solver.Check(as, true)
+func (x *Exec) check(extra ...*Term) (Result, Model) { return x.checkW(false, extra...) }
+
+// checkM also fetches a model on sat.
+func (x *Exec) checkM(extra ...*Term) (Result, Model) { return x.checkW(true, extra...) }
+
+func (x *Exec) checkW(wantModel bool, extra ...*Term) (Result, Model) {
+	r, m, why := x.Solver.Check(x.pc, extra, wantModel)
 	if r == Unknown && x.E.Debug {
 		fmt.Fprintln(os.Stderr, "UNKNOWN:", why)
 	}
@@ -217,6 +248,9 @@ func (x *Exec) Branch(c *Term) bool {
 		return false
 	}
 	x.branches++
+	if x.local != nil {
+		return x.branchLocal(c)
+	}
 	if x.pos < len(x.decisions) {
 		d := x.decisions[x.pos]
 		x.pos++
@@ -259,6 +293,7 @@ func (x *Exec) Branch(c *Term) bool {
 	}
 	switch {
 	case tOK && fOK:
+		x.forkSites[x.curSite]++
 		alt := make([]int8, len(x.decisions)+1)
 		copy(alt, x.decisions)
 		alt[len(x.decisions)] = 0
@@ -313,6 +348,9 @@ func (x *Exec) store(p *Pointer, v Value) {
 	if p.IsNil() {
 		panic(&guestPanic{msg: "nil pointer dereference (store)"})
 	}
+	if x.local != nil && p.Cell.ID <= x.local.cellMark {
+		panic(&localAbort{"store inside a summarised predicate"})
+	}
 	if p.Cell.Epoch < x.epoch && x.epoch > 0 && !x.E.isHarnessFn(x.curFn) {
 		where := "?"
 		if x.curFn != nil {
@@ -357,6 +395,9 @@ func (x *Exec) force(v Value) Value {
 	}
 	if l.Resolved != nil {
 		return l.Resolved
+	}
+	if x.local != nil {
+		panic(&localAbort{"lazy initialisation inside a summarised predicate"})
 	}
 	switch u := l.Typ.Underlying().(type) {
 	case *types.Pointer:
@@ -445,6 +486,11 @@ func (x *Exec) lazyValue(t types.Type, name string) Value {
 				continue
 			}
 			f[i] = x.lazyValue(u.Field(i).Type(), name+"."+u.Field(i).Name())
+			if u.Field(i).Name() == "X509Certificate" {
+				if t, ok := f[i].(*Term); ok {
+					x.setAttr(t, "certtext") // certificate text: see vrtCertText
+				}
+			}
 		}
 		return &StructV{F: f}
 	case *types.Pointer:
@@ -614,6 +660,24 @@ func (x *Exec) CallFunction(fn *ssa.Function, args []Value, env []Value, caller 
 			}
 			switch i := in.(type) {
 			case *ssa.Phi:
+				if fr.merge != nil && prev == fr.merge.from {
+					var vt, ve Value
+					for k, p := range block.Preds {
+						if p == fr.merge.thenBlock {
+							vt = x.get(fr, i.Edges[k])
+						}
+						if p == fr.merge.from {
+							ve = x.get(fr, i.Edges[k])
+						}
+					}
+					tt, ok1 := vt.(*Term)
+					te, ok2 := ve.(*Term)
+					if !ok1 || !ok2 {
+						panic(abortf("internal: if-conversion of a non-scalar phi"))
+					}
+					fr.locals[i] = Ite(fr.merge.cond, tt, te)
+					break
+				}
 				for k, p := range block.Preds {
 					if p == prev {
 						fr.locals[i] = x.get(fr, i.Edges[k])
@@ -623,7 +687,19 @@ func (x *Exec) CallFunction(fn *ssa.Function, args []Value, env []Value, caller 
 			case *ssa.Jump:
 				next = block.Succs[0]
 			case *ssa.If:
+				if x.E.Debug {
+					x.curSite = x.siteOf(fr, in)
+				}
 				c := x.term(x.getF(fr, i.Cond))
+				if !c.IsConst() && x.E.IfConvert {
+					if join := x.ifConvert(fr, block, c); join != nil {
+						// the triangle was executed speculatively; phis at the join select by c
+						prev, block = nil, nil
+						next = join
+						fr.merge = &mergeInfo{cond: c, thenBlock: blockSucc0(i), from: i.Block()}
+						break
+					}
+				}
 				if x.Branch(c) {
 					next = block.Succs[0]
 				} else {
@@ -647,6 +723,11 @@ func (x *Exec) CallFunction(fn *ssa.Function, args []Value, env []Value, caller 
 			case *ssa.RunDefers:
 				x.runDefers(fr)
 			default:
+				if x.E.Debug {
+					if _, isCall := in.(*ssa.Call); isCall {
+						x.curSite = x.siteOf(fr, in)
+					}
+				}
 				func() {
 					defer func() {
 						if r := recover(); r != nil {
@@ -665,6 +746,14 @@ func (x *Exec) CallFunction(fn *ssa.Function, args []Value, env []Value, caller 
 		}
 		if next == nil {
 			panic(abortf("internal: block without terminator in %s", fn))
+		}
+		if block == nil {
+			// if-converted: arrive at the join as if from the branching block
+			prev, block = fr.merge.from, next
+			continue
+		}
+		if fr.merge != nil && block != fr.merge.from {
+			fr.merge = nil
 		}
 		prev, block = block, next
 	}
@@ -1458,6 +1547,11 @@ func (x *Exec) callSSA(fr *frame, fn *ssa.Function, args []Value, env []Value, s
 		return m(x, fr, args)
 	}
 	if x.E.isReal(fn) {
+		if x.E.Summaries {
+			if r, ok := x.trySummarize(fr, fn, args, env, site); ok {
+				return r
+			}
+		}
 		return x.CallFunction(fn, args, env, fr, site)
 	}
 	if fn.Synthetic == "package initializer" {
@@ -1800,4 +1894,162 @@ func (x *Exec) pcHas(c *Term) bool {
 		x.pcKeyed++
 	}
 	return x.pcKeys[c.Key()]
+}
+
+func blockSucc0(i *ssa.If) *ssa.BasicBlock { return i.Block().Succs[0] }
+
+var pureCallees = map[string]bool{
+	"net/url.QueryEscape": true,
+}
+
+// ifConvert recognises the triangle  if c { x = x + pure(...) }  over strings:
+// the then-block has the branching block as its only predecessor, consists of
+// string concatenations and calls of total, pure functions, and jumps to the
+// else-target, whose phis are all scalar. It is then executed speculatively and
+// the join's phis become ite terms, instead of forking the path.
+func (x *Exec) ifConvert(fr *frame, b *ssa.BasicBlock, c *Term) *ssa.BasicBlock {
+	t, e := b.Succs[0], b.Succs[1]
+	if len(t.Preds) != 1 || len(t.Succs) != 1 || t.Succs[0] != e || len(t.Instrs) > 12 {
+		return nil
+	}
+	for _, in := range t.Instrs {
+		switch i := in.(type) {
+		case *ssa.BinOp:
+			if i.Op != token.ADD {
+				return nil
+			}
+			if bt, ok := i.Type().Underlying().(*types.Basic); !ok || bt.Info()&types.IsString == 0 {
+				return nil
+			}
+		case *ssa.Call:
+			callee := i.Call.StaticCallee()
+			if callee == nil || !pureCallees[callee.String()] {
+				return nil
+			}
+		case *ssa.Jump, *ssa.DebugRef:
+		default:
+			return nil
+		}
+	}
+	for _, in := range e.Instrs {
+		ph, ok := in.(*ssa.Phi)
+		if !ok {
+			break
+		}
+		if bt, ok := ph.Type().Underlying().(*types.Basic); !ok || bt.Info()&(types.IsString|types.IsBoolean|types.IsInteger) == 0 {
+			return nil
+		}
+	}
+	for _, in := range t.Instrs {
+		switch in.(type) {
+		case *ssa.Jump, *ssa.DebugRef:
+		default:
+			x.step(fr, in)
+		}
+	}
+	return e
+}
+
+func (x *Exec) branchLocal(c *Term) bool {
+	l := x.local
+	if l.pos < len(l.decisions) {
+		d := l.decisions[l.pos]
+		l.pos++
+		if d == 1 {
+			x.pc = append(x.pc, c)
+			return true
+		}
+		x.pc = append(x.pc, Not(c))
+		return false
+	}
+	// no solver calls inside a summary: both sides are kept unless the path
+	// condition decides the test syntactically; an infeasible combination only
+	// contributes an unsatisfiable disjunct to the result
+	alt := make([]int8, len(l.decisions)+1)
+	copy(alt, l.decisions)
+	alt[len(l.decisions)] = 0
+	l.newWork = append(l.newWork, alt)
+	l.decisions = append(l.decisions, 1)
+	l.pos++
+	x.pc = append(x.pc, c)
+	return true
+}
+
+var summaryFnRe = regexp.MustCompile(`(VerificationNecessary|signaturePostProvided|certificateCheckNecessary)\$1$`)
+
+// trySummarize runs a side-effect-free predicate over all its internal paths
+// and returns its result as one boolean term. ok == false: not applicable (the
+// caller then executes the function normally, forking as usual).
+func (x *Exec) trySummarize(fr *frame, fn *ssa.Function, args []Value, env []Value, site ssa.Instruction) (res Value, ok bool) {
+	if x.local != nil || !summaryFnRe.MatchString(fn.String()) {
+		return nil, false
+	}
+	if sig := fn.Signature; sig.Results().Len() != 1 || !types.Identical(sig.Results().At(0).Type().Underlying(), types.Typ[types.Bool]) {
+		return nil, false
+	}
+	savedPC := x.pc
+	savedLen := len(x.pc)
+	savedIncl := len(x.inconclusive)
+	mark := x.cellSeq
+	restore := func() {
+		x.pc = savedPC[:savedLen]
+		x.pcKeyed, x.pcScanned = 0, 0
+		x.pcKeys, x.pcSyms = map[string]bool{}, map[string]bool{}
+		x.local = nil
+	}
+	type outcome struct {
+		cond *Term
+		val  *Term
+	}
+	var outs []outcome
+	work := [][]int8{{}}
+	aborted := false
+	for len(work) > 0 && !aborted {
+		dec := work[len(work)-1]
+		work = work[:len(work)-1]
+		x.local = &localCtx{decisions: dec, cellMark: mark}
+		x.pc = append([]*Term{}, savedPC[:savedLen]...)
+		x.pcKeyed, x.pcScanned = 0, 0
+		x.pcKeys, x.pcSyms = map[string]bool{}, map[string]bool{}
+		func() {
+			defer func() {
+				if r := recover(); r != nil {
+					switch a := r.(type) {
+					case *localAbort:
+						aborted = true
+					case *guestPanic:
+						aborted = true // let the ordinary execution find and report it
+					case *pathAbort:
+						if a.kind != "infeasible" {
+							aborted = true
+						}
+					default:
+						panic(r)
+					}
+				}
+			}()
+			v := x.CallFunction(fn, args, env, fr, site)
+			t, isT := v.(*Term)
+			if !isT || t.Sort != SBool {
+				aborted = true
+				return
+			}
+			outs = append(outs, outcome{And(x.pc[savedLen:]...), t})
+			work = append(work, x.local.newWork...)
+		}()
+		if len(outs) > 64 {
+			aborted = true
+		}
+	}
+	restore()
+	if aborted {
+		x.inconclusive = x.inconclusive[:savedIncl]
+		return nil, false
+	}
+	r := FalseT
+	for _, o := range outs {
+		r = Or(r, And(o.cond, o.val))
+	}
+	x.summaries++
+	return r, true
 }
